@@ -147,7 +147,7 @@ def stacks(tier):
 
 
 def shards(tier):
-    return [("stacks", p, d) for p in range(len(POSITIONS)) for d in range(len(DOCS))] + [("files", 0), ("illegal", 0), ("protocol", 0), ("reuse", 0), ("hooks", 0), ("libresults", 0)] + [("bigfile", e) for e in BIG_ENCODINGS]
+    return [("stacks", p, d) for p in range(len(POSITIONS)) for d in range(len(DOCS))] + [("files", 0), ("illegal", 0), ("protocol", 0), ("reuse", 0), ("hooks", 0), ("libresults", 0)] + [("bigpass", n) for n in BIGPASS_SIZES[tier]] + [("bigfile", e) for e in BIG_ENCODINGS]
 
 
 def fresh(idxs):
@@ -1019,7 +1019,65 @@ def check_bigfile(enc, acc, tmpdir):
                 )
 
 
+class _TagKeys(BlockMiddleware):
+    def transform_entry(self, entry, library):
+        entry.key = entry.key + "!"
+        return entry
+
+
+class _Twice(BlockMiddleware):
+    def transform_entry(self, entry, library):
+        return [entry, ExplicitComment("after " + entry.key)]
+
+
+class _DropThirds(BlockMiddleware):
+    def transform_entry(self, entry, library):
+        return None if int(entry.key[1:].rstrip("!")) % 3 == 0 else entry
+
+
+BIGPASS_SIZES = {"quick": [255, 256, 257, 999, 1000, 1001, 1002, 1003, 1025, 2049, 4099], "thorough": [255, 256, 257, 999, 1000, 1001, 1002, 1003, 1025, 2049, 4099, 8193, 16387, 65539]}
+
+
+def check_bigpass(n, acc):
+    """A pass of a block middleware over a library of n blocks (sizes around the thresholds a chunked or parallel pass would
+    use): every block is visited once, in order, and its result spliced in its place - through parse_string and
+    write_string, with in-place and copying instances, parallel execution allowed or not."""
+    text = '@string{s = "v"}\n' + "".join(f"@a{{k{i}, t = {{v{i}}}}}\n" for i in range(n - 2)) + "@comment{end}\n"
+    keys = [f"k{i}" for i in range(n - 2)]
+    sig = lambda lib: [(type(b).__name__, getattr(b, "key", None) if not isinstance(b, ExplicitComment) else b.comment) for b in lib.blocks]
+    expectations = {
+        "tag": (_TagKeys, [("String", "s")] + [("Entry", k + "!") for k in keys] + [("ExplicitComment", "end")]),
+        "twice": (_Twice, [("String", "s")] + [x for k in keys for x in (("Entry", k), ("ExplicitComment", "after " + k))] + [("ExplicitComment", "end")]),
+        "drop": (_DropThirds, [("String", "s")] + [("Entry", k) for i, k in enumerate(keys) if i % 3] + [("ExplicitComment", "end")]),
+        "tag,twice,tag": (None, [("String", "s")] + [x for k in keys for x in (("Entry", k + "!!"), ("ExplicitComment", "after " + k + "!"))] + [("ExplicitComment", "end")]),
+    }
+    for name, (cls, exp) in expectations.items():
+        for inplace in (True, False):
+            for parallel in (True, False):
+                mk = lambda c: c(allow_inplace_modification=inplace, allow_parallel_execution=parallel)
+                stack = (lambda: [mk(_TagKeys), mk(_Twice), mk(_TagKeys)]) if cls is None else (lambda: [mk(cls)])
+                case = {"bigpass": n, "middleware": name, "inplace": inplace, "parallel_allowed": parallel}
+                acc.trace(2)
+                acc.case(nontrivial_key=("bigpass", n, name, inplace, parallel))
+                acc.count("bigpass_cases")
+                got = attempt(lambda: sig(bibtexparser.parse_string(text, append_middleware=stack())))
+                acc.step(("bigpass", n), (name, inplace, parallel), got[0] if got[0] == "raised" else len(got[1]))
+                if got != ("ok", exp):
+                    obs = got if got[0] == "raised" else f"{len(got[1])} blocks; first difference at {next((i for i, (x, y) in enumerate(zip(got[1], exp)) if x != y), min(len(got[1]), len(exp)))}"
+                    acc.violation({"oracle": "block_pass_visits_every_block_in_order", "route": "parse_string", "middleware": name}, {"case": case, "observed": repr(obs)[:300], "expected": f"{len(exp)} blocks"}, size=n)
+                    continue
+                # the same through write_string: the prepended stack, then the default stack, then the writer
+                lib = bibtexparser.parse_string(text)
+                got = attempt(lambda: bibtexparser.write_string(lib, prepend_middleware=stack()))
+                ref = attempt(lambda: write(fold(stack() + default_unparse(), bibtexparser.parse_string(text)), BibtexFormat()))
+                exp_blocks = len(exp)
+                if got != ref or (got[0] == "ok" and got[1].count("@a{") + got[1].count("@comment{") + got[1].count("@string{") != exp_blocks):
+                    acc.violation({"oracle": "block_pass_visits_every_block_in_order", "route": "write_string", "middleware": name}, {"case": case, "observed": repr(got)[:200], "expected": f"text of {exp_blocks} blocks, equal to the folded stack"}, size=n)
+
+
 def run_shard(shard, tier, acc):
+    if shard[0] == "bigpass":
+        return check_bigpass(shard[1], acc)
     with tempfile.TemporaryDirectory(prefix="verif-c20-") as tmpdir:
         if shard[0] == "stacks":
             _, pos, di = shard
@@ -1056,6 +1114,8 @@ def replay(case, acc):
             check_reuse(acc)
         elif "bigfile" in case:
             check_bigfile(case["bigfile"], acc, tmpdir)
+        elif "bigpass" in case:
+            check_bigpass(case["bigpass"], acc)
         elif "failure" in case or "parse_failure" in case:
             check_failures(acc, tmpdir)
         elif "illegal" in case:
@@ -1070,5 +1130,5 @@ def unit_test(case):
 
 def ENV_SHARDS(tier):
     """The broad, cheap families: run again in a fresh interpreter per environment (engine.run_environments)."""
-    return list(shards('quick'))
+    return [s for s in shards('quick') if s[0] not in ('bigpass', 'bigfile')]
 
